@@ -1,6 +1,7 @@
 import Fuota.Model.Recon
 import Fuota.Spec.Gf2
 import Fuota.Props.C02
+import Fuota.Lemmas.Echelon
 /-!
 # C03 — reconstruction finishes exactly at full rank; a refusal is a no-op; Done is sticky
 -/
@@ -10,42 +11,121 @@ open Fuota.Recon Fuota.Gf2 Fuota.C02
 /-- reduced rows (over the unknown columns frozen when parity processing began) of the blocks handled since then -/
 def acceptedRows (P : Nat → Nat) (done n : Nat) (is : List Nat) : List Nat := is.map (fun i => project done n (P i))
 
-/- TO PROVE (statements fixed; helper lemmas go to Fuota/Lemmas/…):
-
 /-- one handle_block step, fault free -/
 def step (V : Variant) (P : Nat → Nat) (vbits numRows : Nat) (s : St) (i d : Nat) : St × Res :=
   handleBlock V noFault P vbits numRows s i d s.bs
 
--- (a) refusal: exactly when a parity-range block arrives in stage 1 of an incomplete session with more unknown
---     blocks than the capacity; and it changes nothing (state, stores, log)
-theorem refuse_iff (V) (P) (vbits numRows) (s : St) (i d : Nat) :
+/-! ## (a) refusal -/
+
+/-- **C03 (a).** A block is refused (`TooMany`) exactly when a parity-range block arrives in stage 1 of an incomplete
+session that has more unknown blocks than one of the two capacities. -/
+theorem refuse_iff (V : Variant) (P : Nat → Nat) (vbits numRows : Nat) (s : St) (i d : Nat) :
     (step V P vbits numRows s i d).2 = Res.tooMany ↔
       (isComplete s = false ∧ s.n ≤ i ∧ s.l = 0 ∧
-        (vbits < (unknowns s.done s.n).length ∨ numRows < (unknowns s.done s.n).length))
-theorem refuse_noop (V) (P) (vbits numRows) (s : St) (i d : Nat)
-    (h : (step V P vbits numRows s i d).2 = Res.tooMany) : (step V P vbits numRows s i d).1 = s
+        (vbits < (unknowns s.done s.n).length ∨ numRows < (unknowns s.done s.n).length)) := by
+  unfold step
+  rw [handleBlock_eq]
+  by_cases hc : isComplete s = true
+  · simp [hc]
+  · have hc' : isComplete s = false := by simpa using hc
+    rw [if_neg hc]
+    by_cases hr : s.n ≤ i ∧ s.l = 0 ∧
+        (vbits < (unknowns s.done s.n).length ∨ numRows < (unknowns s.done s.n).length)
+    · rw [if_pos hr]
+      exact ⟨fun _ => ⟨hc', hr⟩, fun _ => rfl⟩
+    · rw [if_neg hr]
+      constructor
+      · intro h
+        exfalso
+        generalize (if s.n ≤ i ∧ s.l = 0 then { s with l := (unknowns s.done s.n).length } else s) = s' at h
+        split at h
+        · exact stage1_ne_tooMany _ _ _ _ _ h
+        · exact stage2_ne_tooMany _ _ _ _ _ h
+      · intro h
+        exact absurd h.2 hr
 
--- (b) Done is sticky and silent: once complete, every call returns Done and the state (hence log) is unchanged
-theorem done_sticky (V) (P) (vbits numRows) (s : St) (i d : Nat) (h : isComplete s = true) :
-    step V P vbits numRows s i d = (s, Res.done (s.n * s.bs))
-theorem done_then_complete : for every run as in C02 (`run V n bs vbits numRows x P is`), if the last result is
-    `Res.done _` then `isComplete` holds of the final state (so `done_sticky` applies to every later delivery).
+/-- **C03 (a).** A refusal changes nothing: state, stores and log are exactly as before. -/
+theorem refuse_noop (V : Variant) (P : Nat → Nat) (vbits numRows : Nat) (s : St) (i d : Nat)
+    (h : (step V P vbits numRows s i d).2 = Res.tooMany) : (step V P vbits numRows s i d).1 = s := by
+  obtain ⟨hc, hr⟩ := (refuse_iff V P vbits numRows s i d).1 h
+  unfold step
+  rw [handleBlock_eq, if_neg (by simp [hc]), if_pos hr]
 
--- (c) never before the received blocks determine the data (corollary of C02.recon_sound):
-theorem done_determines (V) (n bs vbits numRows) (x x' P : Nat → Nat) (hP : Contract n P) (is : List Nat)
-    (hsame : ∀ i ∈ is, combo x (P i) n = combo x' (P i) n)
+/-! ## (b) Done is sticky -/
+
+/-- **C03 (b).** Once the session is complete every further call returns `Done` with the full length and leaves the
+state (hence stores and log) untouched. -/
+theorem done_sticky (V : Variant) (P : Nat → Nat) (vbits numRows : Nat) (s : St) (i d : Nat)
+    (h : isComplete s = true) : step V P vbits numRows s i d = (s, Res.done (s.n * s.bs)) := by
+  unfold step
+  rw [handleBlock_eq, if_pos h]
+
+/-- **C03 (b).** In every run as in C02, if the last delivery reports `Done` then the final state is complete, so
+`done_sticky` applies to every later delivery. -/
+theorem done_then_complete (V : Variant) (n bs vbits numRows : Nat) (x P : Nat → Nat) (hP : Contract n P)
+    (is : List Nat) (b : Nat) (hdone : (run V n bs vbits numRows x P is).2.getLast? = some (Res.done b)) :
+    isComplete (run V n bs vbits numRows x P is).1 = true :=
+  (run_inv V n bs vbits numRows x P hP is).2.2 b hdone
+
+/-! ## (c) never before the data is determined -/
+
+/-- **C03 (c).** `Done` is never reported before the delivered blocks determine the data: if two sets of originals
+give the same delivered blocks and the run on the first reports `Done`, the two sets agree on all `n` blocks. -/
+theorem done_determines (V : Variant) (n bs vbits numRows : Nat) (x x' P : Nat → Nat) (hP : Contract n P)
+    (is : List Nat) (hsame : ∀ i ∈ is, combo x (P i) n = combo x' (P i) n)
     (b : Nat) (hdone : (run V n bs vbits numRows x P is).2.getLast? = some (Res.done b)) :
-    ∀ m, m < n → x m = x' m
+    ∀ m, m < n → x m = x' m := by
+  have hrun : run V n bs vbits numRows x P is = run V n bs vbits numRows x' P is :=
+    runBlocks_congr V noFault P vbits numRows _ _ is _ hsame
+  intro m hm
+  have h1 := ((recon_sound V n bs vbits numRows x P hP is).2.1 b hdone).2 m hm
+  have h2 := ((recon_sound V n bs vbits numRows x' P hP is).2.1 b (hrun ▸ hdone)).2 m hm
+  rw [← h1, ← h2, hrun]
 
--- (d) completion exactly at full rank. Stage 2 state reached from a stage-2 entry state `s0`
---     (s0.l = (unknowns s0.done s0.n).length ≠ 0, s0.used = 0) by handling the blocks `js` (none refused, since
---     refusals only happen in stage 1): the last step reports Done iff the projected rows of `js` span every unit
---     vector of the unknown space; i.e. with U := unknowns s0.done s0.n, l := U.length:
---       last result = done  ↔  ∀ u < l, InSpan (acceptedRows P s0.done s0.n js) (2 ^ u)
---     (proved via the echelon invariant: stored rows have distinct pivots, each stored row is in the span of the
---      accepted rows and each accepted row is in the span of the stored rows.)
-theorem done_iff_span … (state it precisely in this style; keep the hypothesis list minimal and satisfiable, and add
-   an `example` showing a concrete state/sequence meeting the hypotheses)
--/
+/-! ## (d) completion exactly at full rank -/
+
+/-- **C03 (d).** Start from any stage-2 entry state `s0` (`l` = number of unknown blocks, non-zero; no pivot stored
+yet) and deliver the blocks `js` with arbitrary contents `blk`, fault free. The last delivery reports `Done` if and
+only if the rows of `js`, restricted to the unknown columns, span every unit vector of the unknown space — i.e. exactly
+when the received equations have full rank. (No assumption on the matrix, the capacity or the data is needed.) -/
+theorem done_iff_span (V : Variant) (P : Nat → Nat) (vbits numRows : Nat) (blk : Nat → Nat) (s0 : St)
+    (hl : s0.l = (unknowns s0.done s0.n).length) (hl0 : s0.l ≠ 0) (hu : s0.used = 0) (js : List Nat) :
+    (∃ b, (runBlocks V noFault P vbits numRows blk s0 js).2.getLast? = some (Res.done b)) ↔
+      ∀ u, u < s0.l → InSpan (acceptedRows P s0.done s0.n js) (2 ^ u) := by
+  have h0 : EchInv [] s0 := {
+    hl := hl, hl0 := hl0
+    hech := fun p hp => by rw [hu] at hp; simp at hp
+    hin := fun p hp => by rw [hu] at hp; simp at hp
+    hout := fun r hr => by simp at hr }
+  obtain ⟨hE, el, hlast⟩ := runBlocks_stage2 V P vbits numRows blk js [] s0 h0
+  rw [List.nil_append] at hE
+  have hiff := hE.complete_iff
+  rw [el] at hiff
+  unfold acceptedRows
+  rw [← hiff]
+  by_cases hjs : js = []
+  · subst hjs
+    simp only [runBlocks, List.getLast?_nil, reduceCtorEq, exists_const, false_iff]
+    have : isComplete s0 = true ↔ ∀ i, i < s0.l → s0.used.testBit i = true := isComplete_stage2 s0 hl0
+    intro hc
+    have := this.1 hc 0 (by omega)
+    rw [hu] at this; simp at this
+  · rw [hlast hjs]
+    by_cases hc : isComplete (runBlocks V noFault P vbits numRows blk s0 js).1 = true
+    · simp [hc]
+    · have hc' : isComplete (runBlocks V noFault P vbits numRows blk s0 js).1 = false := by simpa using hc
+      simp [hc']
+
+/-- non-vacuity of (d): 4 blocks of which 0 and 2 are present (unknown columns 1 and 3), stage 2 just entered; the
+parity rows 6 = 0b0110 and 10 = 0b1010 project to 0b01 and 0b11, which span both unit vectors, and the run reports
+`Done` on the second of them (but not on the first). -/
+example :
+    let P : Nat → Nat := fun m => if m < 4 then 2 ^ m else (m - 4) % 16
+    let s0 : St := { n := 4, bs := 1, l := 2, done := 5 }
+    s0.l = (unknowns s0.done s0.n).length ∧ s0.l ≠ 0 ∧ s0.used = 0 ∧
+      acceptedRows P s0.done s0.n [10, 14] = [1, 3] ∧
+      (runBlocks ⟨true⟩ noFault P 8 8 (fun _ => 0) s0 [10, 14]).2 = [.needMore, .done 4] ∧
+      (runBlocks ⟨true⟩ noFault P 8 8 (fun _ => 0) s0 [10]).2 = [.needMore] := by
+  decide +kernel
 
 end Fuota.C03
